@@ -112,6 +112,28 @@ Theorem C11_callable_1d_equals_keras :
 Proof. exact callable_1d_equals_keras. Qed.
 Print Assumptions C11_callable_1d_equals_keras.
 
+(* the container of the inputs.  Explainers hand tf tensors to predictions_one_hot_callable: right for every batch size.
+   Metrics hold NumPy arrays: right with a batch size (the rows come back out of a tf.data.Dataset as tensors) ... *)
+Theorem C11_callable_container_ok :
+  forall k (f : list Qc -> list Qc) K bs inputs targets,
+    1 <= length inputs -> targets_ok K inputs targets -> (forall x, length (f x) = K) -> bs_ok bs ->
+    (k = TfTensor \/ bs <> None) ->
+    batch_one_hot_callable_on k (model_2d f) bs inputs targets = Some (keras_scores f inputs targets).
+Proof. exact callable_container_ok. Qed.
+Print Assumptions C11_callable_container_ok.
+
+(* ... and WRONG with batch_size=None: inputs.numpy() does not exist on a NumPy array, so a metric (Deletion / Insertion)
+   built on a NumPy callable or predict_proba object with batch_size=None raises instead of returning the scores a Keras
+   model gets.  FINDING (code as found); witness: one sample [1/2], target [2], f(x) = [x_0]. *)
+Theorem C11_metric_callable_bs_none_refuted :
+  exists (f : list Qc -> list Qc) inputs targets,
+    1 <= length inputs /\ targets_ok 1 inputs targets /\ (forall x, length (f x) = 1) /\
+    batch_one_hot_callable_on explainer_container (model_2d f) None inputs targets = Some (keras_scores f inputs targets) /\
+    batch_one_hot_callable_on metric_container (model_2d f) (Some 1) inputs targets = Some (keras_scores f inputs targets) /\
+    batch_one_hot_callable_on metric_container (model_2d f) None inputs targets <> Some (keras_scores f inputs targets).
+Proof. exact metric_callable_bs_none_refuted. Qed.
+Print Assumptions C11_metric_callable_bs_none_refuted.
+
 (* non-vacuity: a batch of two 2x3x2 images (H <> W) meets the hypotheses; position (ch=1, i=1, j=2) of the
    channel-first sample reads channel-last position 11; the three conversions of a concrete sample; a module list with
    a nested Conv2d converts, a dense one does not, a request overrides; 1-D predictions on a batch of one and of two *)
